@@ -8,5 +8,5 @@ Definition run_c03 : sexp -> sexp := with_jsr run_c01.
 Definition run_c04 : sexp -> sexp := with_jsr run_c01.
 Definition run_c05j : sexp -> sexp := with_jsr run_c05.
 Definition run_c07j : sexp -> sexp := with_jsr run_c07.
-Definition run_c06j : sexp -> sexp := with_jsr run_c06.
+Definition run_c06j : sexp -> sexp := with_jsr_c06 run_c06.
 Definition run_c13j : sexp -> sexp := with_jsr run_c13.
